@@ -79,3 +79,16 @@ pub(crate) fn stub_fmt_write_u_escape(output: &mut dyn core::fmt::Write, _args: 
 pub(crate) fn stub_fmt_write_nothing(_output: &mut dyn core::fmt::Write, _args: core::fmt::Arguments<'_>) -> core::fmt::Result {
     Ok(())
 }
+
+/// Stub for `String::reserve`: a capacity hint only. Skipping it keeps every allocation size a constant:
+/// growth then happens in `String::push` (capacity doubling from 0 -> 8 -> 16 ...), whereas `reserve(n)` with a
+/// symbolic `n` asks the allocator for a symbolic size, which CBMC's array post-processing does not survive.
+pub(crate) fn stub_string_reserve(_s: &mut String, _additional: usize) {}
+
+/// Stub for `String::push_str`: character-by-character `push` (same result; avoids the `reserve(len)` of
+/// `Vec::extend_from_slice`, see `stub_string_reserve`).
+pub(crate) fn stub_string_push_str(s: &mut String, t: &str) {
+    for c in t.chars() {
+        s.push(c);
+    }
+}
